@@ -195,6 +195,9 @@ func safeRun(p *Prop, tape *Tape) (out *Outcome) {
 	return out
 }
 
+// PanicSite is panicSite for engines that recover panics themselves.
+func PanicSite(stack string) string { return panicSite(stack) }
+
 // panicSite picks the first /repo frame of a stack as a stable class name.
 func panicSite(stack string) string {
 	lines := strings.Split(stack, "\n")
